@@ -255,3 +255,16 @@ var registry = map[string]*Property{
 		Rules:      []Rule{{"NIL-ACC", rules.NilAcc(rules.ScopeCmd, 1)}, {"NIL-ARG", rules.NilArg(rules.ScopeCmd, 1)}},
 	},
 }
+
+// devRules: every rule by name, for `ionlint -dev RULE`.
+var devRules = map[string]Rule{
+	"NUM-NARROW":  {"NUM-NARROW", rules.NumNarrow(rules.ScopeNum, nil, 0)},
+	"NUM-SHIFT":   {"NUM-SHIFT", rules.NumShift(rules.ScopeNum, nil, 0)},
+	"NUM-EXP32":   {"NUM-EXP32", rules.NumArith32(rules.ScopeNum, nil, 0)},
+	"NUM-BIG":     {"NUM-BIG", rules.NumBig(rules.ScopeIon, 0)},
+	"NUM-F32":     {"NUM-F32", rules.NumF32(rules.ScopeIon, 0)},
+	"NUM-REFLECT": {"NUM-REFLECT", rules.NumReflect(rules.ScopeIon, 0)},
+	"NUM-NOFLOAT": {"NUM-NOFLOAT", rules.NumNoFloat},
+	"TAB-LENPAY":  {"TAB-LENPAY", rules.TabLenPay},
+	"TAB-CODEC":   {"TAB-CODEC", rules.TabCodec},
+}
